@@ -310,6 +310,36 @@ func (nc *nodeCase) oracleRules(op string) {
 			return
 		}
 	}
+	// (1b) a block that breaks a ValidateBlock rule (context-free mutant) is never stored, whether
+	// it arrived after its parent (processBlock -> saveBlock) or left the orphan pool
+	// (saveSubBlock -> saveBlock); a refused orphan does not stay in the pool once its parent is stored
+	orph, _ := n.chain.VerifNodeOrphans()
+	inPool := map[string]bool{}
+	for _, h := range orph {
+		inPool[nc.nm.name(h)] = true
+	}
+	for name := range nc.delivered {
+		kind := nc.mutants[name]
+		cf := false
+		for _, k := range contextFreeMutants {
+			if k == kind {
+				cf = true
+			}
+		}
+		if !cf {
+			continue
+		}
+		b := nc.nm.blocks[name]
+		h := b.Hash()
+		if _, err := n.store.GetBlockHeader(&h); err == nil {
+			nc.c.Fail("C13:invalid-block-stored:"+kind, fmt.Sprintf("after %s: %s (rule broken: %s) is stored", op, name, kind))
+			return
+		}
+		if _, err := n.store.GetBlockHeader(&b.PreviousBlockHash); err == nil && inPool[name] {
+			nc.c.Fail("C13:invalid-orphan-kept:"+kind, fmt.Sprintf("after %s: %s (rule broken: %s) is still in the orphan pool although its parent is stored", op, name, kind))
+			return
+		}
+	}
 	// (2) valid blocks are accepted: the best block is the fork-choice winner (height, then
 	// hash; nothing is justified in these cases) among the delivered blocks whose whole chain
 	// is valid and delivered
@@ -355,6 +385,43 @@ func genCaseRules(c *Ctx, mode string) {
 		tip = name
 	}
 	validTips := []string{tip}
+	// out-of-order delivery: a just-defined block (valid block, mutant, child of a mutant) is
+	// held back with probability 1/3 and delivered later, so that children reach the node before
+	// their parents and mutants reach saveBlock through saveSubBlock. Definition (and the
+	// reference node, which needs parents first) is not delayed; nc.deliver stays the only
+	// delivery path.
+	var held []string
+	send := func(name string) {
+		b := nc.nm.blocks[name]
+		if _, err := nc.sut.store.GetBlockHeader(&b.PreviousBlockHash); err != nil {
+			c.Count("delivered-as-orphan")
+			if nc.mutants[name] != "" {
+				c.Count("mutant-delivered-as-orphan")
+				c.Count("mutant-delivered-as-orphan:" + nc.mutants[name])
+			}
+			if pn := nc.nm.name(b.PreviousBlockHash); nc.nm.blocks[pn] != nil && !nc.delivered[pn] {
+				c.Count("child-before-parent")
+			}
+		}
+		nc.deliver(name)
+	}
+	sendOrHold := func(name string) {
+		if rng.Intn(3) == 0 {
+			held = append(held, name)
+			c.Count("held-back")
+			return
+		}
+		send(name)
+	}
+	release := func() {
+		if len(held) == 0 {
+			return
+		}
+		i := rng.Intn(len(held))
+		name := held[i]
+		held = append(held[:i], held[i+1:]...)
+		send(name)
+	}
 	steps := 5 + rng.Intn(8)
 	for i := 0; i < steps && !nc.dead; i++ {
 		parent := validTips[len(validTips)-1]
@@ -365,7 +432,7 @@ func genCaseRules(c *Ctx, mode string) {
 		case 0: // a valid block with transactions
 			name := nc.defBlock(parent, uint64(rng.Intn(2)), byte(rng.Intn(3)), nc.randomTxs(parent))
 			if name != "" {
-				nc.deliver(name)
+				sendOrHold(name)
 				validTips = append(validTips, name)
 			}
 		default:
@@ -381,21 +448,27 @@ func genCaseRules(c *Ctx, mode string) {
 				continue
 			}
 			c.Count("mutant:" + kind)
-			nc.deliver(m)
+			sendOrHold(m)
 			// sometimes a valid block on top of the mutant, sometimes a valid sibling
 			if rng.Intn(3) == 0 && nc.nm.blocks[m].Height == nc.nm.blocks[parent].Height+1 && kind != "coinbase-missing" {
 				if ch := nc.defChildOfMutant(m); ch != "" {
-					nc.deliver(ch)
+					sendOrHold(ch)
 				}
 			}
 			if rng.Intn(2) == 0 {
 				name := nc.defBlock(parent, uint64(rng.Intn(2)), byte(rng.Intn(3)), nil)
 				if name != "" {
-					nc.deliver(name)
+					sendOrHold(name)
 					validTips = append(validTips, name)
 				}
 			}
 		}
+		if rng.Intn(3) == 0 {
+			release()
+		}
+	}
+	for len(held) > 0 && !nc.dead {
+		release()
 	}
 	c.Distinct(fmt.Sprintf("rules-%d-%d", c.Seed, c.nOps))
 	c.Count(fmt.Sprintf("E=%d", E))
